@@ -4,9 +4,10 @@ import SevenZ.Driver.Header
 import SevenZ.Driver.Path
 import SevenZ.Driver.Decode
 import SevenZ.Driver.Reader
+import SevenZ.Driver.Spec
 open SevenZ.Driver
 
-def handlers : List (String → List String → Option String) := [primHandler, headerHandler, pathHandler, decHandler, readerHandler]
+def handlers : List (String → List String → Option String) := [primHandler, headerHandler, pathHandler, decHandler, readerHandler, specHandler]
 
 def step (line : String) : String :=
   match (line.trimAscii.toString.splitOn " ").filter (· ≠ "") with
